@@ -35,7 +35,7 @@ QUERY_TIMEOUT_MS = {"quick": 60000, "thorough": 240000}
 
 def bounds(tier):
     return {"objective": "N=3 points, all parameters and k symbolic, models hertz_para/hertz_cone/hertz_pyr3s",
-            "glue": "C04 config cone 4+2 k symbolic" + ("; para 4+2 k symbolic" if tier == "thorough" else ""),
+            "glue": "C04 config cone 4+2, k = 1/2" if tier == "quick" else "C04 configs cone 4+2 and para 4+2, k symbolic",
             "initial guess": "absolute (4+2), relative cp (4+2, 4 passes), plateau (12+0, n=2); k symbolic",
             "outside": "optimiser equivariance; doubles"}
 
@@ -45,9 +45,13 @@ def tasks(tier):
     for m in ("hertz_para", "hertz_cone", "hertz_pyr3s"):
         ts.append({"name": f"objective:{m}", "fn": "t_objective", "args": {"model_key": m, "n": 3},
                    "witnesses": ["objective"]})
-    ts.append({"name": "glue:cone:4+2:ksym", "fn": "t_glue",
+    # (the weighted fit with symbolic k has one residual obligation that needs
+    # 15-60 s of nlsat and is load-dependent at the quick cap: k = 1/2 in the
+    # quick tier, symbolic k in the thorough tier; the objective and the
+    # initial-guess tasks keep k symbolic in both)
+    ts.append({"name": "glue:cone:4+2:k" + ("half" if tier == "quick" else "sym"), "fn": "t_glue",
                "args": {"model_key": "hertz_cone", "layout": "4+2", "segment": 0, "weighting": "on",
-                        "kmode": "sym", "vary": ["E", "contact_point"]},
+                        "kmode": "half" if tier == "quick" else "sym", "vary": ["E", "contact_point"]},
                "witnesses": ["success"]})
     for mode, lay in (("absolute", "4+2"), ("relative cp", "4+2"), ("plateau", "12+0")):
         ts.append({"name": f"init-guess:{mode}", "fn": "t_init",
